@@ -78,6 +78,18 @@ def st1(prog, rr):
 
 
 # --------------------------------------------------------------------------------------- ST4
+def _yields_clone(prog, e, depth=2):
+    """e is `<x>.clone()` or a call of a (uniquely named) method all of whose returns are"""
+    if norm(e).endswith(".clone()"):
+        return True
+    if depth and isinstance(e, ast.Call) and isinstance(e.func, ast.Attribute):
+        cands = [f for f in prog.funcs if f.name == e.func.attr]
+        if len(cands) == 1:
+            rets = [n for n in walk_local(cands[0].node) if isinstance(n, ast.Return)]
+            return bool(rets) and all(r.value is not None and _yields_clone(prog, r.value, depth - 1) for r in rets)
+    return False
+
+
 @rule("ST4", ["C09"], "get_randstate returns a clone; set_randstate stores a clone; RandState.clone copies the generator state into a fresh generator",
       engine="DF", floor=4)
 def st4(prog, rr):
@@ -102,13 +114,13 @@ def st4(prog, rr):
         rets = [n for n in walk_local(g.node) if isinstance(n, ast.Return)]
         rr.inst("randobj.get_randstate returns %s" % [norm(r.value) for r in rets])
         for r in rets:
-            if not norm(r.value).endswith(".clone()"):
+            if not _yields_clone(prog, r.value):
                 rr.finding(g, r, "randobj.get_randstate", "ST4: get_randstate() hands out the live state object; later calls on the object advance the snapshot")
     s = prog.method("RandObjInt", "set_randstate")
     asg = [n for n in walk_local(s.node) if isinstance(n, ast.Assign) and any(norm(t_) == "self.randstate" for t_ in n.targets)]
     rr.inst("RandObjInt.set_randstate stores %s" % [norm(a.value) for a in asg])
     for a in asg:
-        if not norm(a.value).endswith(".clone()"):
+        if not _yields_clone(prog, a.value):
             rr.finding(s, a, "RandObjInt.set_randstate", "ST4: set_randstate() keeps a reference to the caller's state; one RandState could then not seed several replays")
     if not asg:
         rr.finding(s, s.node, "RandObjInt.set_randstate", "ST4: set_randstate() does not store the state", text="no store")
@@ -554,7 +566,10 @@ def ds2(prog, rr):
     inv = [n for n in walk_local(rs.node) if isinstance(n, ast.Call) and isinstance(n.func, ast.Subscript)]
     for i in inv:
         idxs = find_local(rs.node, lambda v: isinstance(v, ast.Call) and call_name(v) == "distselect") or ["idx"]
-        if norm(i.func) not in ["%s[%s][1]" % (rs.params[0], ix) for ix in idxs]:
+        fn = i.func
+        direct = (isinstance(fn.value, ast.Subscript) and norm(fn.value.value) == rs.params[0] and norm(fn.slice) == "1"
+                  and isinstance(fn.value.slice, ast.Call) and call_name(fn.value.slice) == "distselect")
+        if not direct and norm(i.func) not in ["%s[%s][1]" % (rs.params[0], ix) for ix in idxs]:
             rr.finding(rs, i, "randselect", "DS2: the invoked callback is '%s'; expected the selected element's callable" % norm(i.func))
 
 
@@ -633,8 +648,9 @@ def cv12(prog, rr):
             lpv = norm(lp.generators[0].target)
     from sa.ir import find_local
     vals = find_local(sm.node, lambda v: "get_val()" in norm(v)) or ["val"]
+    from sa.ir import erase_records
     for t in tests:
-        tt = norm(t).replace(" ", "")
+        tt = norm(erase_records(prog, t, var=lpv)).replace(" ", "")
         if tt not in [y % (v, lpv, lpv) for v in vals for y in ("%s&%s[1]==%s[0]", "(%s&%s[1])==%s[0]")]:
             rr.finding(sm, t, "CoverpointBinSingleWildcardModel.sample", "CV12: the match test is '%s'; with specs stored as (value, mask) it must be "
                        "(val & spec[1]) == spec[0]" % norm(t))
